@@ -2,7 +2,8 @@
 
 case = {"proxy_scheme": http|https, "dest_scheme": http|https, "forwarding": bool, "proxy_headers": {..}, "headers": {..},
         "proxy_cert": ok|bad, "origin_cert": ok|bad, "connect": [status, ...] (one per CONNECT, 0 = garbage), "ipv6": bool,
-        "close_after": [bool, ...] (does the server close the connection after response i), "nreq": 1..3, "retries": False|1}
+        "close_after": [bool, ...] (does the server close the connection after response i), "nreq": 1..3, "retries": False|1,
+        "proxy_pin": absent | "right" | "wrong" (proxy_assert_fingerprint: the SHA-256 of the certificate the https proxy presents, or of another one)}
 TLS is not run: urllib3.connection.ssl_wrap_socket is replaced by a recorder that counts the layers on a socket, notes the
 server name asked for and fails with SSLCertVerificationError where the case says the certificate is bad.
 Observation: every message the network saw (connection, TLS layers around it, request line, which header groups it carries,
@@ -24,7 +25,7 @@ TRUSTED_BASE = [
     "HTTPSConnection.connect's order of TLS-to-proxy, CONNECT, TLS-to-origin, the error wrapping of urlopen) ",
     "TLS is not run: a certificate is good or bad as the case says; http.client's _tunnel is below the model (CONNECT line + tunnel headers, non-200 -> OSError)",
 ]
-ASSUMPTIONS = ["proxy at proxy.example:3128, destination dest.example (or [2001:db8::7]) on the default port", "no caller-supplied SSLContext or fingerprint (C07)"]
+ASSUMPTIONS = ["proxy at proxy.example:3128, destination dest.example (or [2001:db8::7]) on the default port", "no caller-supplied SSLContext and no fingerprint for the origin (C07); a wrong proxy_assert_fingerprint is given to the model as a proxy certificate that does not verify"]
 EXHAUSTIVE = {"quick": False, "thorough": False}
 CASE_TIMEOUT = 30
 
@@ -37,7 +38,7 @@ def encode(case):
     return [B(case["proxy_scheme"] == "https"), B(case["dest_scheme"] == "https"), B(case["forwarding"]),
             B("Proxy-Authorization" in case["proxy_headers"]), B("X-Proxy" in case["proxy_headers"]),
             B("X-App" in case["headers"]), B("Authorization" in case["headers"]),
-            B(case["proxy_cert"] == "ok"), B(case["origin_cert"] == "ok"), [c for c in case["connect"]], B(case["ipv6"]),
+            B(case["proxy_cert"] == "ok" and not (case.get("proxy_pin") == "wrong" and case["proxy_scheme"] == "https")), B(case["origin_cert"] == "ok"), [c for c in case["connect"]], B(case["ipv6"]),
             [B(x) for x in case["close_after"]], case["nreq"], case["retries"] if case["retries"] is not False else 0, B(case["retries"] is not False)]
 
 
@@ -106,7 +107,8 @@ def impl(case):
         if bad:
             raise ssl.SSLCertVerificationError(1, "[SSL: CERTIFICATE_VERIFY_FAILED] certificate verify failed (fake)")
         sock.tls_layers += 1
-        sock.getpeercert = lambda binary_form=False: (b"" if binary_form else {})
+        der = b"proxy-certificate" if to_proxy else b"origin-certificate"
+        sock.getpeercert = lambda binary_form=False: (der if binary_form else {})
         sock.version = lambda: "TLSv1.3"
         return sock
 
@@ -124,8 +126,11 @@ def impl(case):
     outcomes = []
     try:
         with installed(net):
+            pin = {}
+            if case.get("proxy_pin"):
+                pin["proxy_assert_fingerprint"] = hashlib.sha256(b"proxy-certificate" if case["proxy_pin"] == "right" else b"another-certificate").hexdigest()
             pm = urllib3.ProxyManager("%s://proxy.example:3128" % case["proxy_scheme"], proxy_headers=dict(case["proxy_headers"]) or None,
-                                      use_forwarding_for_https=case["forwarding"])
+                                      use_forwarding_for_https=case["forwarding"], **pin)
             url = "%s://%s/res" % (case["dest_scheme"], dest_host)
             shared_headers = dict(case["headers"])       # one mapping re-used for every request of a redirect case
             for i in range(case["nreq"]):
@@ -215,6 +220,8 @@ def oracle(case, obs):
                 return "the forwarded request was written inside %d TLS layers, the proxy is %s" % (layers, case["proxy_scheme"])
         if https_proxy and case["proxy_cert"] == "bad":
             return "a message was sent through a proxy whose certificate does not verify"
+        if https_proxy and case.get("proxy_pin") == "wrong":
+            return "a message was sent through a proxy whose certificate is not the pinned one (proxy_assert_fingerprint)"
     for i, o in enumerate(outs):
         kind = o[0]
         if kind in (4, 5):
@@ -275,8 +282,21 @@ def cases(rng, tier):
             for rh in ({}, {"X-App": "1"}, {"Authorization": "Bearer t", "X-App": "1"}):
                 out.append({"proxy_scheme": ps, "dest_scheme": "http", "forwarding": False, "proxy_headers": ph, "headers": rh, "proxy_cert": "ok", "origin_cert": "ok",
                             "connect": [200, 200], "ipv6": False, "close_after": [False, False, False], "nreq": 2, "retries": False, "redirect": True})
+    # the proxy's certificate pinned (proxy_assert_fingerprint): it counts on every route that ends its TLS at the proxy
+    for ds in ("http", "https"):
+        for fw in (False, True):
+            for pin in ("right", "wrong"):
+                for ps in ("https", "http"):
+                    for close in (False, True):
+                        out.append({"proxy_scheme": ps, "dest_scheme": ds, "forwarding": fw, "proxy_headers": {"Proxy-Authorization": "Basic dTpw"}, "headers": {"X-App": "1"},
+                                    "proxy_cert": "ok", "origin_cert": "ok", "connect": [200, 200, 200], "ipv6": False, "close_after": [close, False], "nreq": 2, "retries": False,
+                                    "proxy_pin": pin})
     for _ in range(4000 if tier == "quick" else 100000):
         out.append(one_case(rng))
+    for _ in range(600 if tier == "quick" else 15000):
+        c = one_case(rng)
+        c["proxy_pin"] = rng.choice(["right", "wrong"])
+        out.append(c)
     return out
 
 
